@@ -15,6 +15,7 @@
   are started in increasing id order over the atoms not yet visited.
 -/
 import Purr.Lemmas.OrderL
+import Purr.Lemmas.DfsL
 import Purr.Lemmas.StereoL
 import Purr.Lemmas.BuilderL
 import Purr.Props.C01
@@ -195,6 +196,31 @@ theorem components_start_at_lowest_unvisited (g : Graph) (hw : WellFormed g) (es
     have hypre : y ∉ pre := fun hp => hnd'.2.2 y hp y (by simp [hy]) rfl
     have : ¬ y < e.2 := fun hlt => hypre (hbelow y hlt)
     omega
+
+/-- THE VISIT ORDER IS THE TEXTBOOK DEPTH-FIRST PREORDER.  `Spec.dfsOrder` (Purr/Spec/Dfs.lean) knows nothing of events,
+    ring numbers, parents or pop counts: start atoms are tried in the order `0, 1, …`, one visited already is passed
+    over; at an atom the bond list is gone through in list order, a bond to a visited atom is passed over, a bond to a
+    new atom visits that atom — and everything reachable through ITS list — before the next bond is looked at.  The
+    order `ord` under which all the theorems of this file renumber the atoms is exactly that order (with any amount of
+    fuel at least the traversal's own), and it is the order in which the atom events are handed to the follower. -/
+theorem visit_order_is_depth_first (g : Graph) (es : List (Event × Nat)) (ord : List Nat) (h : walkRecL g = some (es, ord)) :
+    (∀ fuel, recFuel g ≤ fuel → Spec.dfsOrder g fuel = some ord) ∧ es.filterMap atomLabel = ord := by
+  unfold walkRecL at h
+  split at h
+  · cases h
+  · simp only [Option.map_eq_some_iff] at h
+    obtain ⟨⟨es0, ord0, pool0⟩, hc, heq⟩ := h
+    simp only [Prod.mk.injEq] at heq
+    obtain ⟨rfl, rfl⟩ := heq
+    refine ⟨?_, ?_⟩
+    · intro fuel hle
+      exact dfsFrom_mono_le g hle _ _ _ (comps_dfs g _ _ _ _ _ _ _ hc)
+    · have := comps_labels g _ _ _ _ _ _ _ hc
+      simpa using this.symm
+
+/-- non-vacuity, and the order on a small case: in `0–1, 0–2, 1–3` with atom 0's list `[2, 1]` the order is 0, 2, 1, 3 -/
+example : Spec.dfsOrder [⟨.star, [⟨.elided, 2⟩, ⟨.elided, 1⟩]⟩, ⟨.star, [⟨.elided, 0⟩, ⟨.elided, 3⟩]⟩, ⟨.star, [⟨.elided, 0⟩]⟩,
+    ⟨.star, [⟨.elided, 1⟩]⟩] 10 = some [0, 2, 1, 3] := by decide
 
 /-- a newly reached atom's other bonds are pushed in list order (the stack's top is the first one) -/
 theorem children_in_list_order (sid tid : Nat) (k : AtomKind) (bs : List Bond) :
